@@ -446,6 +446,11 @@ def run_sched_case(case, acc):
         check_schedule(case['kind'], s, e, case.get('weekday'), case.get('pre_market', False), cs, acc)
 
 
+def _weekly_with_unknown_day():
+    from qstrader.system.rebalance.weekly import WeeklyRebalance
+    return WeeklyRebalance(pts(cal.at(dt.date(2020, 1, 6), dt.time(0, 0))), pts(cal.at(dt.date(2020, 2, 6), cal.POST)), 'FUNDAY').rebalances
+
+
 def shard_c13(spec, acc):
     core.boot()
     t_end = time.time() + spec['budget_s']
@@ -457,6 +462,13 @@ def shard_c13(spec, acc):
     from qstrader.simulation.daily_bday import DailyBusinessDaySimulationEngine as _Eng
     for p_, q_ in ((True, False), (False, True), (True, True)):
         list(_Eng(pts(cal.at(dt.date(2020, 1, 6), dt.time(0, 0))), pts(cal.at(dt.date(2020, 1, 8), cal.POST)), pre_market=p_, post_market=q_))
+    # ... and has had requests refused: a reversed range (clock), an unknown weekday (weekly schedule)
+    for bad_ in (lambda: _Eng(pts(cal.at(dt.date(2020, 1, 8), dt.time(0, 0))), pts(cal.at(dt.date(2020, 1, 6), cal.POST))),
+                 lambda: _weekly_with_unknown_day()):
+        try:
+            bad_()
+        except Exception:
+            acc.count('C13:refused_requests_before_the_valid_ones')
     # "no scheduled rebalance is silently skipped", observed on running sessions: any time of day for the start
     from qsmon import sesswl
     for j in range(spec.get('sessions', 3)):
